@@ -1021,6 +1021,24 @@ func lineCounterWhy(fn *ssa.Function) string {
 				if f, _ := fieldLoad(pair[1]); f == "Error.Line" {
 					cnt = pair[0]
 				}
+				// the line number handed in as a parameter that every caller fills from Error.Line
+				if prm, ok := pair[1].(*ssa.Parameter); ok && idxProg != nil {
+					idx := paramIndexOf(prm.Parent(), prm)
+					callers := idxProg.callersOf(prm.Parent())
+					all := idx >= 0 && len(callers) > 0
+					for _, e := range callers {
+						if e.Site == nil || e.Site.Common().IsInvoke() || idx >= len(e.Site.Common().Args) {
+							all = false
+							continue
+						}
+						if f, _ := fieldLoad(e.Site.Common().Args[idx]); f != "Error.Line" {
+							all = false
+						}
+					}
+					if all {
+						cnt = pair[0]
+					}
+				}
 			}
 		}
 		if cnt == nil {
